@@ -370,12 +370,16 @@ def check_property(prop, tier, seed):
     # Bounded stand-in: run the witness families of that function's labelled clauses on the REAL code; a
     # concrete failing input is a violation (it is a counterexample on the real crate), none found = undecided.
     fallback_notes = []
+    fallback_done = set()
     for u, e in undecided:
         fnp = getattr(e, "fn", None)
         if not fnp or e.reason not in ("unsupported", "lost-anchor"):
             continue
         labs = contract_labels_of(fnp)
         labs = [l for l in labs if label_matches(l, pats)]
+        if fnp in fallback_done:   # the same function in a twin unit: one search, one report
+            continue
+        fallback_done.add(fnp)
         tried = set()
         for lab in labs:
             f = {"label": lab, "fn": fnp, "message": f"function outside the verifier's reach ({e.reason}); bounded witness search on the real code", "site": fnp, "text": e.detail[:200], "unit": u}
